@@ -82,6 +82,8 @@ class LoopAnn(object):
         vm.path.ghost[self.index] = k
         if choice == 0:
             vm.assume(z3.And(0 <= k, k < n))
+            if vm.check_sat([]) == z3.unsat:
+                raise PathEnd()
             self.assume_inv(vm, env, k)
             vm.path.stored = set()
             vm.assign_target(node.target, it.elem(k), env)
@@ -133,6 +135,8 @@ class LoopAnn(object):
 
 
 def fresh_like(vm, name, cur, kind=None):
+    if callable(kind):
+        return kind(vm, name)
     if kind == 'int' or (kind is None and isinstance(cur, (SInt, int)) and not isinstance(cur, bool)):
         return SInt(vm.fresh(name))
     if kind == 'bool' or (kind is None and isinstance(cur, (SBool, bool))):
@@ -276,7 +280,9 @@ class VM(I.Interp):
         return out
 
     def cover(self, label):
-        r = self.check_sat([], timeout=3000, ground_only=False)
+        if str(self.cover_points.get(label, '')).startswith('sat'):
+            return
+        r = self.check_sat([], timeout=1500, ground_only=False)
         if r == z3.unknown and self.check_sat([], timeout=3000) == z3.sat:
             r = 'sat(ground part)'
         cur = self.cover_points.get(label)
@@ -327,6 +333,7 @@ def verify_function(contract, timeout_ms=None, want_models=True):
             vm._pending = []
             vm.call_depth = 0
             vm.pure = 0
+            vm.lengths = []
             res.paths += 1
             if res.paths > vm.max_paths:
                 raise OutOfSubset('path explosion (> %d paths)' % vm.max_paths)
@@ -393,16 +400,50 @@ def _run_path(vm, contract, module, fnode, chain):
 
 
 def discharge(ob, axioms, timeout_ms, contract, want_models=True):
+    """portfolio: z3 (short budget) -> cvc5 -> ground small-scope refutation (cvc5, z3) -> z3 (full budget).
+    proved = unsat from z3 or cvc5 on the full (quantified) query; refuted = sat on the full query, or
+    sat on the ground-instantiated small-scope query (backend *-ground)"""
     t0 = time.time()
-    s = z3.Solver()
-    s.set('timeout', timeout_ms)
-    for a in axioms:
-        s.add(a)
-    for c in ob.pc:
-        s.add(c)
-    s.add(z3.Not(ob.goal))
+
+    def mk(timeout):
+        s = z3.Solver()
+        s.set('timeout', timeout)
+        for a in axioms:
+            s.add(a)
+        for c in ob.pc:
+            s.add(c)
+        s.add(z3.Not(ob.goal))
+        return s
+
+    short = min(4000, timeout_ms)
+    s = mk(short)
     r = s.check()
     ob.backend = 'z3'
+    if r == z3.unknown and contract.case_split:
+        v = _case_split(ob, axioms, timeout_ms, contract)
+        if v == 'unsat':
+            r = z3.unsat
+            ob.backend = 'z3+split'
+    if r == z3.unknown:
+        v = _cvc5(s, min(timeout_ms, 8000))
+        if v == 'unsat':
+            r, ob.backend = z3.unsat, 'cvc5'
+        elif v == 'sat':
+            ob.verdict, ob.backend = 'refuted', 'cvc5'
+            ob.model = {'note': 'cvc5 found the negated obligation satisfiable'}
+            ob.time = time.time() - t0
+            return
+    if r == z3.unknown:
+        m = ground_refute(ob, axioms, timeout_ms)
+        if m is not None:
+            ob.verdict, ob.model = 'refuted', m
+            ob.backend = m.pop('backend', 'z3-ground')
+            ob.time = time.time() - t0
+            return
+    if r == z3.unknown and timeout_ms > short:
+        s = mk(timeout_ms)
+        r = s.check()
+        ob.backend = 'z3'
     if r == z3.unsat:
         ob.verdict = 'proved'
     elif r == z3.sat:
@@ -410,23 +451,7 @@ def discharge(ob, axioms, timeout_ms, contract, want_models=True):
         if want_models:
             ob.model = model_summary(s.model())
     else:
-        # portfolio: case split if the contract provides one, then cvc5
-        v = None
-        if contract.case_split:
-            v = _case_split(ob, axioms, timeout_ms, contract)
-        if v is None:
-            v = _cvc5(s, timeout_ms)
-            if v is not None:
-                ob.backend = 'cvc5'
-        else:
-            ob.backend = 'z3+split'
-        if v == 'unsat':
-            ob.verdict = 'proved'
-        elif v == 'sat':
-            ob.verdict = 'refuted'
-            ob.model = {'note': 'counter-model found by %s (not extracted)' % ob.backend}
-        else:
-            ob.verdict = 'unknown'
+        ob.verdict = 'unknown'
     ob.time = time.time() - t0
 
 
@@ -463,20 +488,28 @@ def _case_split(ob, axioms, timeout_ms, contract):
     return 'unsat'
 
 
-def _cvc5(solver, timeout_ms):
+def _cvc5(solver, timeout_ms, values=None):
+    """run /usr/bin/cvc5 on the solver's assertions; returns 'sat' / 'unsat' / None, or
+    (verdict, {name: value}) when `values` (names of Int constants) is given"""
     try:
         text = solver.to_smt2()
     except Exception:
         return None
     text = '(set-logic ALL)\n' + text
+    if values:
+        text += '\n(get-value (%s))\n' % ' '.join('|%s|' % v if not v.isidentifier() else v for v in values)
     fd, path = tempfile.mkstemp(suffix='.smt2', prefix='vf-')
     try:
         with os.fdopen(fd, 'w') as f:
             f.write(text)
-        p = subprocess.run(['/usr/bin/cvc5', '--lang=smt2', '--strings-exp', '--tlimit=%d' % timeout_ms, path],
-                           capture_output=True, text=True, timeout=timeout_ms / 1000.0 + 10)
+        cmd = ['/usr/bin/cvc5', '--lang=smt2', '--strings-exp', '--tlimit=%d' % timeout_ms]
+        if values:
+            cmd.append('--produce-models')
+        p = subprocess.run(cmd + [path], capture_output=True, text=True, timeout=timeout_ms / 1000.0 + 10)
         out = p.stdout.strip().splitlines()
         if out and out[0] in ('unsat', 'sat'):
+            if values:
+                return out[0], ' '.join(out[1:])[:1500]
             return out[0]
     except Exception:
         return None
@@ -497,3 +530,126 @@ def model_summary(m, limit=60):
             except Exception:
                 pass
     return out
+
+
+def _int_consts(t, acc, depth=0):
+    if depth > 40:
+        return
+    if z3.is_quantifier(t):
+        _int_consts(t.body(), acc, depth + 1)
+        return
+    if z3.is_const(t) and t.decl().kind() == z3.Z3_OP_UNINTERPRETED and t.sort() == z3.IntSort():
+        acc[t.decl().name()] = t
+    for c in t.children():
+        _int_consts(c, acc, depth + 1)
+
+
+def _instantiate(q, terms):
+    """all instances of a top-level universal quantifier over Int variables at the given terms"""
+    import itertools
+    nv = q.num_vars()
+    if any(q.var_sort(i) != z3.IntSort() for i in range(nv)):
+        return None
+    out = []
+    pool = terms if nv == 1 else terms[:8]
+    for combo in itertools.product(pool, repeat=nv):
+        # de Bruijn: variable 0 is the innermost (last declared)
+        out.append(z3.substitute_vars(q.body(), *reversed(combo)))
+    return out
+
+
+def _has_var(t, depth=0):
+    if z3.is_var(t):
+        return True
+    if depth > 30:
+        return True
+    return any(_has_var(c, depth + 1) for c in t.children())
+
+
+def _index_terms(t, acc, depth=0):
+    """ground Int arguments of uninterpreted unary functions (sequence element / spec functions)"""
+    if depth > 60:
+        return
+    if z3.is_quantifier(t):
+        _index_terms(t.body(), acc, depth + 1)
+        return
+    if z3.is_app(t) and t.decl().kind() == z3.Z3_OP_UNINTERPRETED and t.num_args() == 1 \
+            and t.arg(0).sort() == z3.IntSort() and not _has_var(t.arg(0)):
+        acc[str(t.arg(0))] = t.arg(0)
+    for c in t.children():
+        _index_terms(c, acc, depth + 1)
+
+
+def ground_refute(ob, axioms, timeout_ms):
+    idx = {}
+    for c in ob.pc:
+        _index_terms(c, idx)
+    _index_terms(ob.goal, idx)
+    terms = {'0': z3.IntVal(0)}
+    for k in sorted(idx):
+        t = idx[k]
+        terms[str(t)] = t
+        if z3.is_const(t) and not z3.is_int_value(t):
+            for d in (t - 1, t + 1):
+                terms[str(z3.simplify(d))] = d
+    # skolemise a universally quantified goal by hand so that its witness is an instantiation term
+    neg_goal = z3.Not(ob.goal)
+    if z3.is_quantifier(ob.goal) and ob.goal.is_forall():
+        sks = [z3.Const('sk!%d' % i, ob.goal.var_sort(i)) for i in range(ob.goal.num_vars())]
+        neg_goal = z3.Not(z3.substitute_vars(ob.goal.body(), *reversed(sks)))
+        pre_terms = {}
+        for sk in sks:
+            if sk.sort() == z3.IntSort():
+                for d in (sk, sk + 1, sk - 1):
+                    pre_terms[str(d)] = d
+        pre_terms.update(terms)
+        terms = pre_terms
+    bound = getattr(ob, 'lengths', None) or []
+    for i in range(0, 4):
+        terms.setdefault(str(i), z3.IntVal(i))
+    terms = list(terms.values())[:18]
+    s = z3.Solver()
+    for ln in bound:
+        s.add(ln <= 3)          # small-scope refutation: sequences of length <= 3
+    for a in axioms:
+        s.add(a)
+    for c in ob.pc:
+        if z3.is_quantifier(c) and c.is_forall():
+            inst = _instantiate(c, terms)
+            if inst is None:
+                continue
+            for i in inst:
+                if z3.is_quantifier(i) and i.is_forall():
+                    inner = _instantiate(i, terms)
+                    for ii in (inner or []):
+                        s.add(ii)
+                else:
+                    s.add(i)
+        else:
+            s.add(c)
+    s.add(neg_goal)
+    # z3 is unstable on these ground queries (same query: 48 s / timeout); cvc5 decides them in < 1 s
+    names = [d.name() for d in _decl_consts(s)][:40]
+    v = _cvc5(s, min(max(timeout_ms, 8000), 20000), values=names)
+    if v and v[0] == 'sat':
+        return {'backend': 'cvc5-ground', 'values': v[1],
+                'note': 'small-scope (sequence lengths <= 3) ground-instantiated refutation at %d index terms' % len(terms)}
+    if v and v[0] == 'unsat':
+        return None
+    s.set('timeout', min(max(timeout_ms, 8000), 20000))
+    r = s.check()
+    if r == z3.sat:
+        m = model_summary(s.model())
+        m['note'] = 'small-scope ground-instantiated refutation at %d index terms' % len(terms)
+        m['backend'] = 'z3-ground'
+        return m
+    return None
+
+
+def _decl_consts(solver):
+    seen = {}
+    for a in solver.assertions():
+        acc = {}
+        _int_consts(a, acc)
+        seen.update(acc)
+    return [seen[k].decl() for k in sorted(seen)]
